@@ -33,6 +33,7 @@ FILENAME_MAX == 65536
 NameLen(n) == CASE n = "LONG"  -> 65536
                 [] n = "XLONG" -> 65537
                 [] n = "XUNI"  -> 80000      \* 40 000 two-byte characters: over the limit in BYTES, under it in characters
+                [] n = "MUNI"  -> 201        \* "a" + 100 two-byte characters: byte 128 falls inside a character
                 [] n = "LUNI"  -> 65536      \* 32 768 two-byte characters: exactly at the limit in bytes
                 [] n = ""      -> 0
                 [] n = "uni"   -> 5          \* "héé" : 1 + 2 + 2 bytes
